@@ -93,7 +93,7 @@ func XML(ctx *runtime.Task, funcExpr *ast.CallExpr) *errchain.PlError {
 		return nil
 	}
 	// xmlquery already caches the compiled expression for us.
-	dest, err := xmlquery.Query(doc, xpathExpr)
+	dest, err := queryXML(doc, xpathExpr)
 	if err != nil {
 		l.Debug(err)
 		return nil
@@ -111,4 +111,16 @@ func XML(ctx *runtime.Task, funcExpr *ast.CallExpr) *errchain.PlError {
 	}
 
 	return nil
+}
+
+// queryXML evaluates the XPath expression; the xpath package reports some
+// argument errors of its functions (e.g. starts-with(1, 2)) by panicking
+// while the expression is evaluated, which is an error of the query like any other.
+func queryXML(doc *xmlquery.Node, expr string) (node *xmlquery.Node, err error) {
+	defer func() {
+		if r := recover(); r != nil {
+			node, err = nil, fmt.Errorf("XPath expr %s: %v", expr, r)
+		}
+	}()
+	return xmlquery.Query(doc, expr)
 }
